@@ -189,3 +189,40 @@ async fn replay_c12_broadcast_order() {
     for f in failures.iter().take(4) { println!("FAILING-INPUT property=C12 {}", f); }
     assert!(failures.is_empty(), "broadcast does not return its handlers in input order ({} findings)", failures.len());
 }
+
+/// C14 "at least once ... no matter how often the connection fails", the part no safety contract sees: after a failed connect the REAL
+/// `Connection` task must come back even when the caller keeps handing over messages faster than the back-off (seed C14e re-armed the
+/// back-off timer on every hand-over, so the task never reconnected under sustained traffic).
+#[tokio::test]
+async fn replay_c14_reconnect_under_sustained_traffic() {
+    let port = 6480u16;
+    let address = format!("127.0.0.1:{}", port).parse::<SocketAddr>().unwrap();
+    let (tx, rx) = channel(1000);
+    tokio::spawn(async move {
+        Connection { address, receiver: rx, retry_delay: 100, buffer: VecDeque::new() }.run().await;
+    });
+    // first hand-over while nobody listens: the connect fails and the back-off (100 ms) starts
+    let mut handles = Vec::new();
+    let (s, r) = oneshot::channel();
+    tx.send(InnerMessage { data: Bytes::from("m0"), cancel_handler: s }).await.unwrap();
+    handles.push(r);
+    tokio::time::sleep(Duration::from_millis(30)).await;
+    let listener = TcpListener::bind(address).await.unwrap();
+    let mut log = Vec::new();
+    // the peer is up now; keep handing messages over every 20 ms (five times faster than the back-off) for 2.5 s
+    let feeder = tokio::spawn(async move {
+        for i in 1..125 {
+            let (s, r) = oneshot::channel();
+            if tx.send(InnerMessage { data: Bytes::from(format!("m{}", i)), cancel_handler: s }).await.is_err() { break; }
+            handles.push(r);
+            tokio::time::sleep(Duration::from_millis(20)).await;
+        }
+        handles
+    });
+    let got = timeout(Duration::from_millis(2500), peer_session(&listener, 1, &mut log)).await;
+    let _keep = feeder.await;
+    if got.is_err() || log.first().map(|s| s.as_str()) != Some("m0") {
+        println!("FAILING-INPUT property=C14 connect fails once, the peer comes up 30 ms later, one message is handed over every 20 ms (back-off 100 ms): after 2.5 s the peer has received {:?} (expected the first message m0 first)", log.first());
+        panic!("no reconnect under sustained traffic");
+    }
+}
